@@ -173,8 +173,69 @@ end Tumfl.Gen
 """
 
 
+def lchar(c: str) -> str:
+    return f"Char.ofNat {ord(c)}"
+
+
+def lstr(s: str) -> str:
+    out = []
+    for ch in s:
+        if ch in '"\\':
+            out.append("\\" + ch)
+        elif 32 <= ord(ch) < 127:
+            out.append(ch)
+        else:
+            out.append("\\u{%x}" % ord(ch))
+    return '"' + "".join(out) + '"'
+
+
+# --------------------------------------------------------------------------- lexer tables
+def extract_lextables(rep: Report) -> str:
+    import tumfl.lexer as L
+    from tumfl.Token import TokenType
+
+    def chars(xs) -> str:
+        return "[" + ", ".join(lchar(c) for c in xs) + "]"
+
+    plain = L.Lexer("", typed=False)
+    typed = L.Lexer("", typed=True)
+    kw_plain = dict(plain.keywords)
+    kw_typed = dict(typed.keywords)
+    extra = sorted(set(kw_typed) - set(kw_plain))
+    if extra != ["as", "is"] or any(kw_typed[k] != v for k, v in kw_plain.items()):
+        rep.problem("LexTables", "typed/untyped keyword tables differ by more than as/is", extra=extra)
+    for name, val in (("NUMBER", L.NUMBER), ("HEX_NUMBER", L.HEX_NUMBER), ("LETTER", L.LETTER), ("ALPHANUMERIC", L.ALPHANUMERIC)):
+        if any(len(c) != 1 for c in val):
+            rep.problem("LexTables", f"{name} is not a list of single characters")
+    kws = ", ".join(f"({lstr(k)}, {lstr(v.name)})" for k, v in sorted(kw_typed.items()))
+    syms = ", ".join(f"({lstr(k)}, {lstr(v.name)})" for k, v in sorted(L.SYMBOLS.items()))
+    esc = ", ".join(f"({lchar(k)}, {lchar(v)})" for k, v in L.ESCAPE_CODES.items())
+    tts = ", ".join(f"({lstr(t.name)}, {lstr(t.value)})" for t in TokenType)
+    rep.info["lextables"] = {"keywords": len(kw_typed), "symbols": len(L.SYMBOLS), "escapes": len(L.ESCAPE_CODES)}
+    return f"""/-! GENERATED by harness/extract.py from /repo (tumfl/lexer.py, tumfl/Token.py) - do not edit. -/
+namespace Tumfl.Gen
+
+def whitespace : List Char := {chars(L.WHITESPACE)}
+def number : List Char := {chars(L.NUMBER)}
+def hexNumber : List Char := {chars(L.HEX_NUMBER)}
+def letter : List Char := {chars(L.LETTER)}
+def alphanumeric : List Char := {chars(L.ALPHANUMERIC)}
+/-- ESCAPE_CODES: escape letter -> character -/
+def escapeCodes : List (Char × Char) := [{esc}]
+/-- keyword text -> TokenType member name, as seen by a `typed=True` lexer (`as`, `is` only when typed) -/
+def keywords : List (String × String) := [{kws}]
+/-- SYMBOLS: text -> TokenType member name -/
+def symbols : List (String × String) := [{syms}]
+/-- TokenType: member name -> value -/
+def tokenTypes : List (String × String) := [{tts}]
+
+end Tumfl.Gen
+"""
+
+
 EXTRACTORS = {
     "Brackets": extract_brackets,
+    "LexTables": extract_lextables,
 }
 
 
